@@ -219,6 +219,27 @@ pub fn first_use_race(id: &str) -> Result<(), String> {
     }
 }
 
+/// The race in this process (its first use of the library), then - "first use" happens once per process - in up to
+/// seven more processes that run only the race. (first failure message, number of shots made)
+pub fn first_use_shots(id: &str) -> (Option<String>, u64) {
+    let mut failure = first_use_race(id).err();
+    let mut shots = 1u64;
+    if let Ok(exe) = std::env::current_exe() {
+        for _ in 0..7 {
+            if failure.is_some() {
+                break;
+            }
+            if let Ok(out) = std::process::Command::new(&exe).arg(id).arg("--first-use-race").output() {
+                shots += 1;
+                if out.status.code() == Some(1) {
+                    failure = Some(String::from_utf8_lossy(&out.stdout).lines().next().unwrap_or("a child process reported a wrong first use").to_string());
+                }
+            }
+        }
+    }
+    (failure, shots)
+}
+
 /// called by main before anything else
 pub fn first_use(ctx: &Ctx) {
     if !ctx.part_enabled("first-use-race") {
@@ -227,22 +248,7 @@ pub fn first_use(ctx: &Ctx) {
     let mut st = crate::engine::Stats::new();
     st.evals(16);
     st.class("first-use-race");
-    let mut failure = first_use_race(&ctx.id).err();
-    // "first use" happens once per process: seven more processes, each running only the race
-    let mut shots = 1u64;
-    if let Ok(exe) = std::env::current_exe() {
-        for _ in 0..7 {
-            if failure.is_some() {
-                break;
-            }
-            if let Ok(out) = std::process::Command::new(&exe).arg(&ctx.id).arg("--first-use-race").output() {
-                shots += 1;
-                if out.status.code() == Some(1) {
-                    failure = Some(String::from_utf8_lossy(&out.stdout).lines().next().unwrap_or("a child process reported a wrong first use").to_string());
-                }
-            }
-        }
-    }
+    let (failure, shots) = first_use_shots(&ctx.id);
     st.evals(16 * (shots - 1));
     if let Some(m) = failure {
         ctx.fail("first-use-race", serde_json::json!({"first_use_race": ctx.id}), m);
@@ -253,7 +259,10 @@ pub fn first_use(ctx: &Ctx) {
 /// Ok(()) = the case satisfies the property, Err(message) = violation.
 pub fn replay(id: &str, part: &str, case: &Value) -> Result<(), String> {
     if part == "first-use-race" {
-        return first_use_race(id);
+        return match first_use_shots(id).0 {
+            None => Ok(()),
+            Some(m) => Err(m),
+        };
     }
     let r = crate::engine::catch(|| match id {
         "C01" => c01::replay(part, case),
